@@ -53,9 +53,13 @@ func renderAlts(alts []secAlt) []interface{} {
 }
 
 type secOp struct {
-	Path  string
-	Shape int
+	Path   string
+	Shape  int
+	Method string // lower case; "" = get
 }
+
+// every HTTP method of a Swagger 2.0 path item: the requirement applies to all of them alike
+var secMethods = []string{"get", "options", "post", "head", "put", "patch", "delete"}
 
 func secSpec(global []secAlt, ops []secOp) []byte {
 	paths := map[string]interface{}{}
@@ -64,7 +68,11 @@ func secSpec(global []secAlt, ops []secOp) []byte {
 		if secShapes[o.Shape] != nil {
 			op["security"] = renderAlts(secShapes[o.Shape])
 		}
-		paths[o.Path] = map[string]interface{}{"get": op}
+		m := o.Method
+		if m == "" {
+			m = "get"
+		}
+		paths[o.Path] = map[string]interface{}{m: op}
 	}
 	doc := map[string]interface{}{"swagger": "2.0", "info": map[string]interface{}{"title": "sec", "version": "1"}, "produces": []string{"application/json"},
 		"securityDefinitions": secDefs, "paths": paths}
@@ -120,8 +128,13 @@ func expectedRes(scheme, cred string, required []string) credRes {
 	return credRes{R: "err", Code: 401}
 }
 
-func applyCreds(path string, creds map[string]string) ServerReq {
-	rq := ServerReq{Method: "GET", Headers: map[string][]string{}}
+func applyCreds(path string, creds map[string]string) ServerReq { return applyCredsM("get", path, creds) }
+
+func applyCredsM(method, path string, creds map[string]string) ServerReq {
+	if method == "" {
+		method = "get"
+	}
+	rq := ServerReq{Method: strings.ToUpper(method), Headers: map[string][]string{}}
 	q := url.Values{}
 	for s, c := range creds {
 		if c == "absent" {
@@ -158,7 +171,7 @@ func CheckC06(run *ev.Run) {
 		nSpecs *= 2
 	}
 	st := map[string]int{}
-	run.Rule = "specs with a global requirement and 6 operations drawn from 9 requirement shapes (inherit, `security: []`, single scheme, AND, OR, oauth2 scopes, anonymous " +
+	run.Rule = "specs with a global requirement and 6 operations (methods cycling through get, options, post, head, put, patch, delete) drawn from 9 requirement shapes (inherit, `security: []`, single scheme, AND, OR, oauth2 scopes, anonymous " +
 		"alternative); the generated server is compiled with stub authenticators and every assignment of {absent, good, bad} to the schemes the operation names is sent (plus " +
 		"nil-principal, uncoded-error and partial-scope credentials); status, handler-reached flag and principal are compared with the Lean `serve`; distinct = (shape, global, credentials)"
 	run.Trusted = append(run.Trusted, "genlab server lab (generated server + glue main with stub authenticators, driven in-process through httptest)", "the stub authenticators and their mirror in the harness")
@@ -170,7 +183,7 @@ func CheckC06(run *ev.Run) {
 		perm := []int{0, 1, 2, 3, 4, 5, 6, 7, 8}
 		r.Shuffle(len(perm), func(i, j int) { perm[i], perm[j] = perm[j], perm[i] })
 		for i := 0; i < 6; i++ {
-			ops = append(ops, secOp{Path: fmt.Sprintf("/p%d", i), Shape: perm[i]})
+			ops = append(ops, secOp{Path: fmt.Sprintf("/p%d", i), Shape: perm[i], Method: secMethods[(i+si)%len(secMethods)]})
 		}
 		spec := secSpec(global, ops)
 		sb, err := BuildServer("c06", spec)
@@ -260,7 +273,7 @@ func CheckC06(run *ev.Run) {
 				return out
 			}
 			for _, a := range assigns {
-				rq := applyCreds(o.Path, a)
+				rq := applyCredsM(o.Method, o.Path, a)
 				resp, err := sb.Do(rq)
 				if err != nil {
 					st["server-error"]++
@@ -302,7 +315,7 @@ func CheckC06(run *ev.Run) {
 				mr := callModel(false)
 				mr2 := callModel(true)
 				run.Traces++
-				key := fmt.Sprintf("shape%d|global%d|%v", o.Shape, (si+int(run.Seed))%len(secGlobals), a)
+				key := fmt.Sprintf("shape%d|global%d|%s|%v", o.Shape, (si+int(run.Seed))%len(secGlobals), o.Method, a)
 				run.Case(key)
 				replay := map[string]interface{}{"spec": json.RawMessage(spec), "request": rq, "credentials": a, "operation_path": o.Path,
 					"effective_requirement": renderAlts(eff), "real": resp, "model": mr,
